@@ -498,7 +498,7 @@ def pure_cases(ctx):
         cases += [(h, n) for h in UNICODE]
     cases += [(h, 10) for h in latin1_sweep()]
     cases += [(h, 2) for h in latin1_sweep()[::5]]
-    for _ in range(ctx.scale(6000, 60000)):
+    for _ in range(ctx.scale(6000, 40000)):
         n = rng.choice(lens) if rng.random() < .7 else rng.randrange(0, 100)
         cases.append((random_header(rng, n), n))
     return cases
@@ -848,7 +848,7 @@ def e2e_headers(ctx, res: Resource, rng):
         hs.append(w(rng.choice(vs), rng.choice(vs + [""])))
     mal = MALFORMED + UNICODE
     hs += mal if (ctx.thorough or n < 5000) else [h for h in mal if rng.random() < .4]
-    hs += [random_header(rng, n) for _ in range(ctx.scale(25, 150))]
+    hs += [random_header(rng, n) for _ in range(ctx.scale(25, 80))]
     if n < 5000:
         hs += latin1_sweep()[:: (1 if ctx.thorough else 9)]
         hs += HUGE
@@ -1692,6 +1692,80 @@ def run_stored_metadata(ctx, app, client, ch: Channel, rng):
         ch.count("stored-metadata:migration-did-not-rewrite-a-file")
 
 
+# ---- names that collide under the normalisations of the URL -> MediaFile lookup ---------------
+
+TWIN_STREAMS = ("c13twins", "c13twins2")
+_TWINS: dict = {}
+
+
+def _ensure_twins(app):
+    """register (once per process) two streams whose media-file NAMES collide under lower-casing and
+    under the '+.mp4' fallback of the lookup: case twins inside one stream, a name and name+'.mp4',
+    an upper-case-only name, and names that are the lower / upper case of a file of the OTHER stream.
+    Every file has different bytes and a different length.  → {(stream, name): info}"""
+    if _TWINS:
+        return _TWINS
+    import appboot
+    shapes = _ensure_shapes(app)
+    t1 = (appboot.FIXTURES / "bbb" / "bbb_t1.mp4").read_bytes()
+    gap = shapes["shape_gap_free"]["data"]
+
+    def tail(data, k):
+        return data + _box(b"free", bytes((k * 7 + i) % 251 for i in range(k)))
+    layout = {
+        "c13twins": {"Demo_A1": tail(t1, 11), "demo_a1": tail(gap, 17), "clip": tail(t1, 21), "clip.mp4": tail(gap, 33),
+                     "UPPER_ONLY": tail(t1, 5), "Track_B": tail(gap, 44)},
+        # (media-file and blob names are unique across all streams, so the other stream can only hold case variants)
+        "c13twins2": {"track_b": tail(t1, 3), "demo_A1": tail(t1, 9), "DEMO_A1": tail(gap, 15), "Clip": tail(gap, 27)},
+    }
+    src = app.scratch / "c13twins-src"
+    for stream, files in layout.items():
+        (src / stream).mkdir(parents=True, exist_ok=True)
+        items = []
+        for name, data in files.items():
+            (src / stream / f"{name}.mp4").write_bytes(data)
+            items.append((name, src / stream / f"{name}.mp4"))
+        app.add_stream(stream, f"C13 {stream}", items, real_index=True)
+    with app.ctx() as models:
+        for stream, files in layout.items():
+            spk = models.Stream.get(directory=stream).pk
+            for name, data in files.items():
+                mf = models.MediaFile.get(stream_pk=spk, name=name)
+                segs = mf.representation.segments
+                _TWINS[(stream, name)] = {"data": data, "init_end": segs[0].pos + segs[0].size, "first": segs[1].pos,
+                                          "indexed_end": segs[-1].pos + segs[-1].size, "nseg": len(segs) - 1,
+                                          "blob_size": mf.blob.size}
+    return _TWINS
+
+
+def run_name_twins(ctx, app, client, ch: Channel, rng):
+    """each file requested by EXACTLY its own name; the full representation is the stored file that
+    carries exactly that name (oracle unchanged)"""
+    try:
+        twins = _ensure_twins(app)
+    except Exception as e:
+        ch.errors.append(f"name-twin streams: {type(e).__name__}: {e}")
+        return
+    extra = {"name_twins": True}
+    n = 0
+    for (stream, name), info in twins.items():
+        if not re.fullmatch(r"[\w-]+", name):
+            continue            # `clip.mp4` cannot be spelled in a URL: it is only the decoy of `clip`
+        lower, upper = (stream, name.lower()), (stream, name.upper())
+        kind = ("case-twin-in-stream" if (name != name.lower() and lower in twins) or (name != name.upper() and upper in twins)
+                or any(s == stream and o != name and o.lower() == name.lower() for s, o in twins)
+                else "name-vs-name.mp4" if (stream, name + ".mp4") in twins
+                else "case-variant-in-other-stream" if any(s != stream and o.lower() == name.lower() for s, o in twins)
+                else "upper-case-only")
+        ch.count(f"name-collision:{kind}")
+        n += 1
+        for ext in (("mp4", "m4s") if ctx.thorough else ("mp4",)):
+            res = Resource("od", f"/dash/odvod/{stream}/{name}.{ext}", info["data"], True, tag="name-twins", light=True)
+            run_resource(ctx, client, ch, res, shape_headers(info), CLOCK0, extra=extra)
+    if n < 8:
+        ch.errors.append(f"only {n} colliding names could be registered")
+
+
 def class_state():
     """repr of the class-level (shared, mutable) attributes of the handler classes on the path"""
     from dashlive.server.requesthandler import base, media_requests
@@ -1737,7 +1811,7 @@ def run_e2e(ctx, ch: Channel):
             pairs += 1
             if ctx.thorough:
                 x = lrng.random()
-                hs = (e2e_headers(ctx, res, lrng) if x < .04 else compact_headers(ctx, res, lrng) if x < .3
+                hs = (e2e_headers(ctx, res, lrng) if x < .04 else compact_headers(ctx, res, lrng) if x < .2
                       else SMALL_HEADERS + header_region_headers(lrng, res.length, extra=6))
             elif lrng.random() < .06:
                 hs = compact_headers(ctx, res, lrng)
@@ -1757,6 +1831,7 @@ def run_e2e(ctx, ch: Channel):
         run_stream_defaults(ctx, app, client, clk, ch, ctx.rng("e2e-stream-defaults"))
         run_manifest_following(ctx, app, client, clk, ch, ctx.rng("e2e-manifests"))
         run_stored_shapes(ctx, app, client, ch, ctx.rng("e2e-shapes"))
+        run_name_twins(ctx, app, client, ch, ctx.rng("e2e-twins"))
         # re-issue earlier requests at the end of the whole history, against a fresh full representation
         for res in [r for r in resources if r.kind == "seg"][:3] + [r for r in resources if r.kind == "od"][:1]:
             fresh = res.full if res.kind == "od" else other.get(res.url).data
@@ -1820,7 +1895,9 @@ def channels(ctx):
         "the index (trailing mfra/free/uuid/bytes, box before ftyp, gap after the init segment): fixed grid of ranges "
         "around 0, init end, first fragment, indexed end +-2, file length +-1 and suffixes. Files whose MediaFile/Blob "
         "rows were written by the application's own routes (upload form, index, edit-media page, re-index, "
-        "track-id migration; media user, real CSRF tokens), judged against the bytes on disk. "
+        "track-id migration; media user, real CSRF tokens), judged against the bytes on disk. Streams whose "
+        "media-file names collide under the lookup's normalisations (case twins, name vs name+'.mp4', case variants "
+        "of another stream's file), each requested by exactly its own name. "
         "non-trivial = 206 or 416; distinct by (url, header[, preceding url])"))
     try:
         run_e2e(ctx, ch2)
@@ -1869,10 +1946,14 @@ def run_case(case):
                 _ensure_shapes(app)
             if f"/{META_STREAM}/" in url:
                 _ensure_meta(app)
+            if any(f"/{t}/" in url for t in TWIN_STREAMS):
+                _ensure_twins(app)
             if "/odvod/" in url:
                 parts = url.split("?")[0].split("/")
                 if parts[3] == SHAPE_STREAM:
                     full = _SHAPES[parts[4].rsplit(".", 1)[0]]["data"]
+                elif parts[3] in TWIN_STREAMS:
+                    full = _TWINS[(parts[3], parts[4].rsplit(".", 1)[0])]["data"]
                 elif parts[3] == META_STREAM:
                     full = meta_info(app, parts[4].rsplit(".", 1)[0])["data"]
                 else:
@@ -1937,6 +2018,8 @@ def search(ctx, disagreements):
         probe = Channel("search-shapes")
         run_stored_shapes(ctx, app, client, probe, rng)
         if not probe.oracle_failures:
+            run_name_twins(ctx, app, client, probe, rng)
+        if not probe.oracle_failures:
             run_stored_metadata(ctx, app, client, probe, rng)
         if probe.oracle_failures:
             return probe.oracle_failures[0]
@@ -1953,7 +2036,7 @@ def replay(ctx, payload):
     if "header" not in f and "header_repeat" not in f:
         return {"fails": False, "note": "replay names a broken obligation, no input", "payload": payload.get("broken")}
     fails, det = run_case(f)
-    return {"fails": fails, "case": {k: f.get(k) for k in ("kind", "url", "header", "length", "clock", "history", "stream_defaults", "stored_shape", "stored_metadata") if k in f}, **det}
+    return {"fails": fails, "case": {k: f.get(k) for k in ("kind", "url", "header", "length", "clock", "history", "stream_defaults", "stored_shape", "stored_metadata", "name_twins") if k in f}, **det}
 
 
 def replay_finding(ctx, finding):
